@@ -145,14 +145,14 @@ def run(ctx):
     rng = Rng(ctx.seed, 12)
     items = []
     edge = [0, 1, 9, 10, 99, 100, 154, 999]
-    for i in range(ctx.budget(1500, 40000)):
+    for i in range(ctx.budget(1500, 200000)):
         r = rng.fork(i)
         t = r.choice(edge) if r.chance(1, 3) else r.range(0, 999)
         rg = r.choice(edge) if r.chance(1, 3) else r.range(0, 999)
         sec = r.choice([0, 1, 9, 10, 36, 99]) if r.chance(1, 3) else r.range(0, 99)
         safely(rep, 'roundtrip', check_roundtrip, t, r.choice('ns'), rg, r.choice('ew'), sec, r.below(5), items)
     bases = []
-    for i in range(ctx.budget(2500, 60000)):
+    for i in range(ctx.budget(2500, 300000)):
         r = rng.fork(500000 + i)
         k = r.below(10)
         if k < 6:
